@@ -253,18 +253,60 @@ def _build_probe(
         ) -> None:
             """Records actions without running their side effects.
 
-            `assign` is still applied, because context updates are part of the
-            computed next state rather than an external side effect.
+            Three built-ins are not side effects but part of the computed
+            step, and are interpreted by the engine's own
+            `_execute_builtin_action` exactly as a real run would:
+
+            * `assign` - the context update belongs to the next state;
+            * `raise` - the raised event is queued behind the current one and
+              processed within this same call;
+            * `choose` - the actions of the first branch whose guard passes
+              are recorded (and interpreted) in turn.
+
+            Everything else - user actions, and the built-ins that only have
+            effects (`log`, `emit`, `cancel`, `sendTo`, `sendParent`,
+            `forwardTo`, `escalate`, `stopChild`, `spawnChild`, `spawn_*`) or
+            that call back into user code (`pure`, `enqueueActions`) - is
+            recorded and nothing more.
             """
-            from .actions import ASSIGN, resolve_builtin
+            from .actions import ASSIGN, CHOOSE, RAISE, resolve_builtin
 
             for action_def in actions or []:
                 recorded.append(action_def)
-                if resolve_builtin(action_def.type) == ASSIGN:
-                    self._apply_assign(
-                        self._resolve_params(action_def.params, event) or {},
-                        event,
+                # 🙋 A user action of the same name wins over a built-in, as
+                #    in a real run - and user code is never called here.
+                if self.machine.logic.actions.get(action_def.type) is not None:
+                    continue
+                canonical = resolve_builtin(action_def.type)
+                if canonical not in (ASSIGN, RAISE, CHOOSE):
+                    continue
+                # 🛡️ Like `SyncInterpreter._execute_actions`: a built-in that
+                #    raises (a `choose` guard with no implementation, a
+                #    failing assignment callable) is contained and the rest
+                #    of this list is skipped.
+                try:
+                    self._execute_builtin_action(canonical, action_def, event)
+                except Exception:
+                    logger.exception(
+                        "🔥 Built-in action '%s' raised during pure "
+                        "evaluation; skipping remaining actions.",
+                        action_def.type,
                     )
+                    return
+
+        def _deliver(
+            self,
+            actor: Any,
+            target_event: Any,
+            delay: Optional[float],
+            send_id: Optional[str],
+        ) -> None:
+            """Queues an immediate `raise`; any other delivery is an effect.
+
+            A delayed `raise` would need a timer, so it is recorded only.
+            """
+            if actor is self and not delay:
+                self.send(target_event)
 
         def _schedule_state_tasks(self, state: Any) -> None:
             """Suppresses timers and invoked services entirely."""
